@@ -393,6 +393,8 @@ macro_rules! readiness_inst {
 readiness_inst!(sh3_readiness_n0, 0);
 readiness_inst!(sh3_readiness_n1, 1);
 readiness_inst!(sh3_readiness_n3, 3);
+//@ tier: thorough
+readiness_inst!(sh3_readiness_n2, 2);
 
 fn ack_wake_step(w: usize) {
     vio::with_io(move |io| {
@@ -516,6 +518,12 @@ macro_rules! wrb_off_inst {
 }
 wrb_off_inst!(sh3_wrb_off_n0_w2, 0, 2);
 wrb_off_inst!(sh3_wrb_off_n1_w2, 1, 2);
+//@ tier: thorough
+//@ bounds: 2 outstanding sends, 2 parked senders (thorough instance)
+wrb_off_inst!(sh3_wrb_off_n2_w2, 2, 2);
+//@ tier: thorough
+//@ bounds: no outstanding send, 3 parked senders (thorough instance)
+wrb_off_inst!(sh3_wrb_off_n0_w3, 0, 3);
 
 fn set_cap_step(w: usize) {
     vio::with_io(move |io| {
@@ -705,6 +713,10 @@ macro_rules! register_inst {
 }
 register_inst!(sh3_register_n0, 0);
 register_inst!(sh3_register_n2, 2);
+//@ tier: thorough
+register_inst!(sh3_register_n1, 1);
+//@ tier: thorough
+register_inst!(sh3_register_n3, 3);
 
 // =============================================================================================
 // QoS 2 exchanges (C14)
